@@ -38,7 +38,8 @@ CLAIM = dict(
 THEOREMS = ["seqPlace_sound", "randPlace_sound", "saPlace_initial_sound", "seqPlace_terminates",
             "seqPlace_complete_unit", "validPlacement_iff",
             "saStep_inv", "saRun_inv", "saStart_inv", "saPlace_sound",
-            "seqPlace_documented", "randPlace_documented", "saPlace_initial_documented"]
+            "seqPlace_documented", "randPlace_documented", "saPlace_initial_documented",
+            "randPlace_complete_unit", "saPlace_initial_complete_unit"]
 
 RULE = ("problems: 0-40 vertices (0-3 units of 1-3 resources, some needing nothing), random nets, machines 1x1..10x10 "
         "with dead chips and per-chip resource exceptions sized so that packing is tight, location constraints (also on "
